@@ -398,6 +398,10 @@ func executeInBubble(spec *RunSpec, res *RunResult) {
 		r, wr := w.NewPipe()
 		wr.p.buf = append(wr.p.buf, spec.Stdin[len("datasilent:"):]...)
 		stdin, stdinW = r, wr
+	case strings.HasPrefix(spec.Stdin, "latedata:"):
+		// silent while the history runs; the input arrives (and the writer
+		// closes) at the moment the last program starts
+		stdin, stdinW = w.NewPipe()
 	case strings.HasPrefix(spec.Stdin, "data:"):
 		r, wr := w.NewPipe()
 		wr.p.buf = append(wr.p.buf, spec.Stdin[len("data:"):]...)
@@ -476,13 +480,21 @@ func executeInBubble(spec *RunSpec, res *RunResult) {
 			if i < len(spec.ResetFirst) && spec.ResetFirst[i] {
 				runner.Reset()
 			}
+			if i == len(files)-1 && strings.HasPrefix(spec.Stdin, "latedata:") {
+				p := stdinW.p
+				p.mu.Lock()
+				p.buf = append(p.buf, spec.Stdin[len("latedata:"):]...)
+				stdinW.closed, p.wClosed = true, true
+				p.cond.Broadcast()
+				p.mu.Unlock()
+			}
 			outStart, errStart := len(w.out.String()), len(w.errOut.String())
 			pr := &progs[i]
 			var err error
 			if spec.PerStmt && i == len(files)-1 {
 				for _, st := range f.Stmts {
 					err = runner.Run(ctxs[i], st)
-					if runner.Exited() {
+					if runner.Exited() || ctxs[i].Err() != nil {
 						break
 					}
 				}
